@@ -333,7 +333,47 @@ def w_image(pid, tier, seed, job):
     return ctx.dump()
 
 
+def w_roland(pid, tier, seed, job):
+    """S-7xx: the patches (programs) and samples of a performance are siblings; a patch and a sample of the same name, two samples
+    of the same name: printed names distinct, every printed path resolves to its own row"""
+    import roland_writer as W
+    ctx = F.Ctx(pid, tier, seed)
+    rng = random.Random(job)
+    d = W.Disk(fat_version=rng.choice([1, 2]))
+    shared = rng.choice(["GRAND PIANO 16CH", "BASS", "A L"])
+    names = [shared, "KICK", shared if rng.random() < 0.5 else "SNARE"]
+    ss = [d.add(W.SAMPLE, W.Sample(nm, W.tone(100 + i, i + 1), chain=[20 + i])) for i, nm in enumerate(names)]
+    pt = d.add(W.PARTIAL, W.Partial("PT", ss))
+    pa = d.add(W.PATCH, W.Patch(shared, [pt]))
+    pb = d.add(W.PATCH, W.Patch("KICK" if rng.random() < 0.5 else "OTHER", [pt]))
+    pf = d.add(W.PERFORMANCE, W.Performance("PERF", [pa, pb]))
+    d.add(W.VOLUME, W.Volume("VOL", [pf]))
+    with R.TempImage(W.image_bytes(d), "r.img") as path:
+        r = R.ls(path, "VOL/PERF")
+        case = {"image": "roland", "seed": job, "patches": [shared], "samples": names}
+        ctx.count("cli_ls", (job, "roland"), nontrivial=True)
+        if not ctx.require("ls of a listed item renders without exception", case, r.exc is None and "was not found" not in r.out, r.exc_name or r.out[:200]):
+            return ctx.dump()
+        listed = table_names(r.out)
+        ctx.require("names ls prints for siblings are pairwise distinct", dict(case, names=listed), len(set(listed)) == len(listed) and len(listed) >= 5, listed)
+        rows = [ln for ln in r.out.splitlines()[2:] if ln.strip()]
+        for nm, row in zip(listed, rows):
+            r2 = R.ls(path, "VOL/PERF/" + nm)
+            kind = "Sample" if row.rstrip().endswith("Sample") else "Program"
+            first = (r2.out.splitlines() or [""])[0]
+            ctx.count("cli_ls", (job, "roland", nm), nontrivial=True)
+            ctx.require("the path made of the printed names resolves to exactly that item (a sample row lists a sample, a program row a program)",
+                        dict(case, name=nm, row_type=kind), r2.exc is None and "was not found" not in r2.out and first.rstrip().endswith(kind) and first.startswith(nm),
+                        r2.out[:200])
+    return ctx.dump()
+
+
 def run(ctx):
+    try:
+        import roland_writer  # noqa
+        F.pmap(ctx, w_roland, [ctx.seed * 397 + i for i in range(4 if ctx.quick else 24)])
+    except ImportError:
+        pass
     F.pmap(ctx, w_obj, [ctx.seed * 6151 + i for i in range(96 if ctx.quick else 1500)])
     F.pmap(ctx, w_image, [ctx.seed * 389 + i for i in range(16 if ctx.quick else 200)])
 
